@@ -32,7 +32,7 @@ EXHAUSTIVE = "archive matrix: 2 kinds x 3 compression types x default/explicit p
 MUTS = ['append', 'setitem', 'truncate', 'meta', 'delete']
 MUST_HIT = ['copy:Array', 'copy:Ragged', 'src:empty-array', 'src:ragged-nosub', 'dtype:None', 'dtype:given', 'dtype:same-type-other-byteorder',
             'chunk<len', 'archive:xz', 'archive:gz', 'archive:bz2', 'archive:explicit-path', 'archive:existing+ow=False',
-            'archive:existing+ow=True', 'archive:spelling', 'meta:nested', 'target-occupied-by-array-with-metadata', 'source-metadata-emptied',
+            'archive:existing+ow=True', 'archive:spelling', 'archive:long-directory-name', 'meta:nested', 'target-occupied-by-array-with-metadata', 'source-metadata-emptied',
             'returned-metadata-values-mutated-by-caller'] + ['mut:' + m for m in MUTS]
 
 
@@ -65,6 +65,10 @@ def build_source(spec, d):
     sp = os.path.join(d, 'src.darr')
     dst = spec['dtarg']['t'] if spec['dtarg'] else spec['dt']['t']
     mode = gens.cast_mode(spec['dt']['t'], dst) if spec['dtarg'] else 'raw'
+    if spec['kind'] == 'Array' and spec.get('hugerows'):
+        ref = (np.arange(int(np.prod(spec['shape'])), dtype='int64') % 1000003).astype(dt).reshape(spec['shape'])
+        src = darr.asarray(sp, ref, metadata=md, accessmode='r+', chunklen=1)
+        return src, sp, ref, md
     if spec['kind'] == 'Array':
         ref = gens.build_array(dt, spec['shape'], {'m': mode, 's': spec['seed']})
         src = darr.asarray(sp, ref, metadata=md, accessmode='r+')
@@ -303,7 +307,12 @@ def _exec_archive(ctx, spec):
     kind, ct = spec['kind'], spec['ct']
     out.cls('archive:' + ct)
     with ctx.scratch() as d:
-        ap = os.path.join(d, 'data.darr')
+        dname = 'data.darr'
+        if spec.get('longname'):
+            # directory names of 120 / 160 / 200 bytes (non-ASCII counts double): beyond what the oldest tar header format can hold
+            out.cls('archive:long-directory-name')
+            dname = ('recording-é-' + 'x' * spec['longname'])[:spec['longname']] + '.darr'
+        ap = os.path.join(d, dname)
         if kind == 'Array':
             a = darr.asarray(ap, (np.arange(24, dtype='>i2') * 7).reshape(4, 3, 2), metadata={'k': [1, {'z': 2}]})
         else:
@@ -367,9 +376,9 @@ def _exec_archive(ctx, spec):
             out.viol('archive-unreadable', tag, f'{type(e).__name__}: {e}')
             return out
         want = {k: (v[0],) + ((v[2],) if v[0] == 'file' else ()) for k, v in snapshot(ap).items()}
-        root = os.path.join(ex, 'data.darr')
+        root = os.path.join(ex, dname)
         got = {k: (v[0],) + ((v[2],) if v[0] == 'file' else ()) for k, v in snapshot(root).items()} if os.path.isdir(root) else {}
-        if sorted(os.listdir(ex)) != ['data.darr'] or got != want:
+        if sorted(os.listdir(ex)) != [dname] or got != want:
             out.viol('archive-not-identical', tag, f'top={sorted(os.listdir(ex))}; ' + '; '.join(diff(want, got)))
             return out
         try:
@@ -384,6 +393,11 @@ def _exec_archive(ctx, spec):
 def grid():
     for kind, ct, explicit, existing, ow in itertools.product(['Array', 'Ragged'], ['xz', 'gz', 'bz2'], [False, True], [None, 'file', 'archive'], [False, True]):
         yield {'f': 'archive', 'kind': kind, 'ct': ct, 'explicit': explicit, 'existing': existing, 'ow': ow}
+    for kind, ct, ln in itertools.product(['Array', 'Ragged'], ['xz', 'gz', 'bz2'], [120, 160, 200]):
+        yield {'f': 'archive', 'kind': kind, 'ct': ct, 'explicit': ln == 160, 'existing': None, 'ow': False, 'longname': ln}
+    # a source whose single rows are larger than the 80 MiB the default chunk length aims at (168 MB in all), copied with defaults
+    yield {'f': 'copy', 'kind': 'Array', 'dt': {'t': 'int32', 'bo': '<'}, 'seed': 3, 'dtarg': None, 'meta': None, 'mode': 'r', 'mut': None, 'side': 'src',
+           'shape': [2, 21000000], 'chunk': None, 'hugerows': True}
     for i, t in enumerate(NUMTYPES):
         for j, t2 in enumerate(NUMTYPES):
             for bo2 in '<>':
